@@ -25,33 +25,38 @@ theorem nextN_bounds (rest : List UInt8) (sched : List Nat) (h : rest ≠ []) :
   have : 0 < rest.length := List.length_pos_iff.mpr h
   unfold nextN; omega
 
-theorem body_eof (buf : List UInt8) (sched : List Nat) (out : List Go.Out) (offset : Int) :
-    Gen.Pure.sendFileLoop_body0 (buf, [], sched, out, offset) = .ok ((buf, [], sched, out, offset), false) := by
+theorem body_eof (eager : Bool) (buf : List UInt8) (sched : List Nat) (out : List Go.Out) (offset : Int) :
+    Gen.Pure.sendFileLoop_body0 eager (buf, [], sched, out, offset) = .ok ((buf, [], sched, out, offset), false) := by
   unfold Gen.Pure.sendFileLoop_body0 Go.readSome; simp
 
-theorem body_step (buf rest : List UInt8) (sched : List Nat) (out : List Go.Out) (offset : Int)
+/-- one pass over a non-empty rest: one literal token with what the read delivered; the loop goes on unless the reader
+reported the end of the file together with the last bytes -/
+theorem body_step (eager : Bool) (buf rest : List UInt8) (sched : List Nat) (out : List Go.Out) (offset : Int)
     (hr : rest ≠ []) (hbuf : buf.length = 262144) :
-    Gen.Pure.sendFileLoop_body0 (buf, rest, sched, out, offset) =
+    Gen.Pure.sendFileLoop_body0 eager (buf, rest, sched, out, offset) =
       .ok ((rest.take (nextN rest sched) ++ buf.drop (nextN rest sched), rest.drop (nextN rest sched), sched.tail,
-            out ++ frames [rest.take (nextN rest sched)], offset + (nextN rest sched : Int)), true) := by
+            out ++ frames [rest.take (nextN rest sched)], offset + (nextN rest sched : Int)),
+           !(eager && (rest.drop (nextN rest sched)).isEmpty)) := by
   obtain ⟨h0, h1, h2⟩ := nextN_bounds rest sched hr
   unfold Gen.Pure.sendFileLoop_body0 Go.readSome
   simp only [hr, if_false, Go.bind_ok, Bool.false_eq_true, hbuf]
-  change Go.bind (Go.slice (rest.take (nextN rest sched) ++ buf.drop (nextN rest sched)) 0 (nextN rest sched : Int)) _ = _
+  have hn : min (max (sched.headD (min 262144 rest.length)) 1) (min 262144 rest.length) = nextN rest sched := rfl
+  simp only [hn]
+  have hpos : decide ((nextN rest sched : Int) > 0) = true := by simp; omega
+  simp only [hpos, if_true]
   have hs : Go.slice (rest.take (nextN rest sched) ++ buf.drop (nextN rest sched)) 0 (nextN rest sched : Int) = .ok (rest.take (nextN rest sched)) := by
     unfold Go.slice
     rw [if_pos (by simp only [List.length_append, List.length_take, List.length_drop]; omega)]
     simp only [Int.toNat_zero, List.drop_zero, Int.sub_zero, Int.toNat_natCast]
     rw [List.take_append_of_le_length (by simp; omega), List.take_of_length_le (by simp; omega)]
   rw [hs]
-  have hn : nextN rest sched = min (max (sched.headD (min 262144 rest.length)) 1) (min 262144 rest.length) := rfl
-  simp only [Go.bind_ok, ← hn, frames, List.flatMap_cons, List.flatMap_nil, List.append_nil, List.length_take, Nat.min_eq_left h2]
-  simp
+  simp only [Go.bind_ok, frames, List.flatMap_cons, List.flatMap_nil, List.append_nil, List.length_take, Nat.min_eq_left h2]
+  cases eager <;> cases (rest.drop (nextN rest sched)).isEmpty <;> simp
 
-theorem sendLoop_inv : ∀ (fuel : Nat) (buf rest : List UInt8) (sched : List Nat) (out : List Go.Out) (offset : Int),
+theorem sendLoop_inv (eager : Bool) : ∀ (fuel : Nat) (buf rest : List UInt8) (sched : List Nat) (out : List Go.Out) (offset : Int),
     rest.length < fuel → buf.length = 262144 →
     ∃ chunks buf' sched' offset', (∀ c ∈ chunks, 0 < c.length ∧ c.length ≤ 262144) ∧ chunks.flatten = rest ∧
-      Go.loopB fuel Gen.Pure.sendFileLoop_body0 (buf, rest, sched, out, offset) =
+      Go.loopB fuel (Gen.Pure.sendFileLoop_body0 eager) (buf, rest, sched, out, offset) =
         .ok (buf', [], sched', out ++ frames chunks, offset') := by
   intro fuel
   induction fuel with
@@ -65,35 +70,55 @@ theorem sendLoop_inv : ∀ (fuel : Nat) (buf rest : List UInt8) (sched : List Na
       refine ⟨[], buf, sched, offset, by simp, by simp, ?_⟩
       simp [frames]
     · obtain ⟨h0, h1, h2⟩ := nextN_bounds rest sched hr
-      rw [body_step buf rest sched out offset hr hbuf]
-      simp only [Go.bind_ok, if_true]
+      rw [body_step eager buf rest sched out offset hr hbuf]
+      simp only [Go.bind_ok]
       have hb' : (rest.take (nextN rest sched) ++ buf.drop (nextN rest sched)).length = 262144 := by
         simp only [List.length_append, List.length_take, List.length_drop]; omega
-      have hl' : (rest.drop (nextN rest sched)).length < n := by
-        simp only [List.length_drop]; omega
-      obtain ⟨chunks, b', s', o', hc, hf, he⟩ := ih _ (rest.drop (nextN rest sched)) sched.tail
-        (out ++ frames [rest.take (nextN rest sched)]) (offset + (nextN rest sched : Int)) hl' hb'
-      refine ⟨rest.take (nextN rest sched) :: chunks, b', s', o', ?_, ?_, ?_⟩
-      · intro c hcm
-        rcases List.mem_cons.mp hcm with rfl | hcm
-        · simp only [List.length_take]; omega
-        · exact hc c hcm
-      · simp [hf]
-      · rw [he]
-        have : frames (rest.take (nextN rest sched) :: chunks) = frames [rest.take (nextN rest sched)] ++ frames chunks := by
-          rw [← frames_append]; rfl
-        rw [this, List.append_assoc]
+      by_cases hlast : (eager && (rest.drop (nextN rest sched)).isEmpty) = true
+      · -- the reader said "end of file" with these bytes: they are the last ones, and they have been sent
+        simp only [hlast, Bool.not_true, Bool.false_eq_true, if_false]
+        have hd : rest.drop (nextN rest sched) = [] := by
+          simp only [Bool.and_eq_true, List.isEmpty_iff] at hlast; exact hlast.2
+        have ht : rest.take (nextN rest sched) = rest := by
+          have := List.take_append_drop (nextN rest sched) rest
+          rw [hd, List.append_nil] at this; exact this
+        refine ⟨[rest], rest.take (nextN rest sched) ++ buf.drop (nextN rest sched), sched.tail,
+          offset + (nextN rest sched : Int), ?_, by simp, ?_⟩
+        · intro c hc
+          simp only [List.mem_singleton] at hc
+          rw [hc]
+          have := congrArg List.length ht
+          simp only [List.length_take] at this
+          omega
+        · rw [hd, ht]
+      · have hlast' : (eager && (rest.drop (nextN rest sched)).isEmpty) = false := by simpa using hlast
+        simp only [hlast', Bool.not_false, if_true]
+        have hl' : (rest.drop (nextN rest sched)).length < n := by
+          simp only [List.length_drop]; omega
+        obtain ⟨chunks, b', s', o', hc, hf, he⟩ := ih _ (rest.drop (nextN rest sched)) sched.tail
+          (out ++ frames [rest.take (nextN rest sched)]) (offset + (nextN rest sched : Int)) hl' hb'
+        refine ⟨rest.take (nextN rest sched) :: chunks, b', s', o', ?_, ?_, ?_⟩
+        · intro c hcm
+          rcases List.mem_cons.mp hcm with rfl | hcm
+          · simp only [List.length_take]; omega
+          · exact hc c hcm
+        · simp [hf]
+        · rw [he]
+          have : frames (rest.take (nextN rest sched) :: chunks) = frames [rest.take (nextN rest sched)] ++ frames chunks := by
+            rw [← frames_append]; rfl
+          rw [this, List.append_assoc]
 
-/-- **The whole-file path sends the whole file, whatever the file system's reads look like**: for every content and
-every schedule of short reads, `sendFile`'s loop emits literal tokens whose data concatenate to exactly the file —
-each between 1 and 256 KiB, each preceded by its length — then the end-of-data token, and ends within
-`len(file)+1` passes. -/
-theorem sendFileLoop_sends_all (file : List UInt8) (sched : List Nat) :
+/-- **The whole-file path sends the whole file, whatever the reader's reads look like**: for every content, every
+schedule of short reads, and whether the reader reports the end of the file together with the last bytes or by the
+next call (D50: the former lost those bytes), `sendFile`'s loop emits literal tokens whose data concatenate to exactly
+the file — each between 1 and 256 KiB, each preceded by its length, never an empty one (which would read as the end
+token) — then the end-of-data token, and ends within `len(file)+1` passes. -/
+theorem sendFileLoop_sends_all (file : List UInt8) (sched : List Nat) (eager : Bool) :
     ∃ chunks, (∀ c ∈ chunks, 0 < c.length ∧ c.length ≤ 262144) ∧ chunks.flatten = file ∧
-      Gen.Pure.sendFileLoop file sched [] = .ok (frames chunks ++ [Go.Out.i32 0], []) := by
+      Gen.Pure.sendFileLoop file sched eager [] = .ok (frames chunks ++ [Go.Out.i32 0], []) := by
   unfold Gen.Pure.sendFileLoop
   have hm : Go.make 262144 = .ok (List.replicate 262144 0) := by unfold Go.make; rw [if_neg (by omega)]; rfl
-  obtain ⟨chunks, b', s', o', hc, hf, he⟩ := sendLoop_inv (file.length + 1) (List.replicate 262144 0) file sched [] 0
+  obtain ⟨chunks, b', s', o', hc, hf, he⟩ := sendLoop_inv eager (file.length + 1) (List.replicate 262144 0) file sched [] 0
     (Nat.lt_succ_self _) (List.length_replicate ..)
   refine ⟨chunks, hc, hf, ?_⟩
   rw [hm]
@@ -157,10 +182,10 @@ theorem recvTokens_literals (hd : Head) (basis : Option Bytes) (chunks : List By
 /-- **Whole-file path, end to end, on the source's own loops**: whatever the file holds and however the file system
 slices the reads, the bytes `sendFile`'s loop writes are read by `receiveData`'s loop (no basis file, any validated
 header) as exactly the file, leaving what follows on the wire unread. -/
-theorem whole_file_end_to_end (file : Bytes) (sched : List Nat) (h : PureTie.Head32) (hok : h.ok) (cs : Nat) (tail : Bytes) :
-    ∃ out, Gen.Pure.sendFileLoop file sched [] = .ok (out, []) ∧
+theorem whole_file_end_to_end (file : Bytes) (sched : List Nat) (eager : Bool) (h : PureTie.Head32) (hok : h.ok) (cs : Nat) (tail : Bytes) :
+    ∃ out, Gen.Pure.sendFileLoop file sched eager [] = .ok (out, []) ∧
       Gen.Pure.recvLoop (wireOf out ++ tail) [] false h.count h.bl h.rem [] = .ok (file, tail) := by
-  obtain ⟨chunks, hc, hf, he⟩ := sendFileLoop_sends_all file sched
+  obtain ⟨chunks, hc, hf, he⟩ := sendFileLoop_sends_all file sched eager
   refine ⟨_, he, ?_⟩
   rw [RecvTie.recvLoop_tied h hok cs, wireOf_frames]
   simp only [Bool.false_eq_true, if_false]
